@@ -490,7 +490,7 @@ impl<'p> Ctx<'p> {
         }
         if let Some(c) = &f.contract {
             for k in c.loops.keys() {
-                let n: usize = k.parse().unwrap_or(usize::MAX);
+                let n: usize = k.split('.').next().unwrap_or("").parse().unwrap_or(usize::MAX);
                 if n >= f.loop_ord && !f.external {
                     self.out.errors.push(format!(
                         "lost anchor: loop {} of {} (function has {} loops)",
@@ -514,22 +514,32 @@ impl<'p> Ctx<'p> {
     }
 
     fn loop_anchor(&mut self, body: &syn::Block) {
-        let (bs, _) = br(body.span());
-        if let Some(t) = self.take_loop_text() {
+        let (bs, be) = br(body.span());
+        let (inv, begin, end) = self.take_loop_text();
+        if let Some(t) = inv {
             self.insert(bs, format!("\n{}\n", t.trim_end()));
+        }
+        // proof hints at the start / end of the loop body (`//@ loop N begin` / `//@ loop N end`)
+        if let Some(t) = begin {
+            self.insert(bs + 1, format!("\n{}\n", t.trim_end()));
+        }
+        if let Some(t) = end {
+            self.insert(be - 1, format!("\n{}\n", t.trim_end()));
         }
     }
 
-    fn take_loop_text(&mut self) -> Option<String> {
-        let mut text = None;
+    fn take_loop_text(&mut self) -> (Option<String>, Option<String>, Option<String>) {
+        let mut text = (None, None, None);
         if let Some(f) = self.fn_stack.last_mut() {
             let ord = f.loop_ord;
             f.loop_ord += 1;
             if let Some(c) = &f.contract {
-                if let Some(t) = c.loops.get(&ord.to_string()) {
-                    if !f.external {
-                        text = Some(t.clone());
-                    }
+                if !f.external {
+                    text = (
+                        c.loops.get(&ord.to_string()).cloned(),
+                        c.loops.get(&format!("{}.begin", ord)).cloned(),
+                        c.loops.get(&format!("{}.end", ord)).cloned(),
+                    );
                 }
             }
         }
@@ -805,7 +815,14 @@ impl<'ast, 'p> Visit<'ast> for Ctx<'p> {
                     _ => None,
                 };
                 if let Some((name, by_ref)) = second {
-                    let inv = self.take_loop_text().map(|t| format!("\n{}\n", t.trim_end())).unwrap_or_default();
+                    let (inv0, hb, he) = self.take_loop_text();
+                    let inv = inv0.map(|t| format!("\n{}\n", t.trim_end())).unwrap_or_default();
+                    if let Some(t) = hb {
+                        self.insert(bs + 1, format!("\n{}\n", t.trim_end()));
+                    }
+                    if let Some(t) = he {
+                        self.insert(be - 1, format!("\n{}\n", t.trim_end()));
+                    }
                     let recv_txt = self.text(rs, re).to_string();
                     self.replace(
                         s,
